@@ -45,7 +45,8 @@ Inductive srel (c : rconf) (j : nat) (th : rthread) : rconf -> Prop :=
 | S_fetch first k r c1 : rt_st th = RRun (RFetch first k) -> fetch_step c j first = (r, c1) ->
     srel c j th (put_thread c1 j (RRun (k r)) (rt_held th))
 | S_persist k : rt_st th = RRun (RPersist k) ->
-    srel c j th (add_log (put_thread (set_lkb c (rc_height c)) j (RRun k) (rt_held th)) j (EvPersist (rc_height c)))
+    srel c j th (add_log (put_thread (set_lkb c (rc_height c + N.of_nat (length (rc_pending c)))%N) j (RRun k) (rt_held th)) j
+                         (EvPersist (rc_height c + N.of_nat (length (rc_pending c)))%N))
 | S_exhausted : rt_st th = RRun RExhausted -> srel c j th (rdie c j RExhaust).
 
 Lemma rstep_inv c j c' : rstep c j = Some c' -> exists th, nth_error (rc_threads c) j = Some th /\ srel c j th c'.
@@ -92,7 +93,7 @@ Lemma fetch_step_frame c i first r c1 :
 Proof.
   unfold fetch_step, next_fetch. intros H.
   destruct (rc_fetch_or c) as [|a rest]; [|destruct a]; cbn in H;
-    try (destruct stall_cancels); try (destruct (rc_pending c) as [|[hash txs] pend]);
+    try (destruct first); try (destruct stall_cancels); try (destruct (rc_pending c) as [|[hash txs] pend]);
     inversion H; subst; cbn; repeat split; eauto.
 Qed.
 
@@ -407,7 +408,7 @@ Proof. cbn. intros [|]; [|exact I]. apply kd_embedk; [apply cp_op_body|intros; e
 Lemma kd_poll_loop le sc fuel pfuel : forall first got k, kd None k -> kd None (poll_loop le sc fuel pfuel first got k).
 Proof.
   induction pfuel as [|n IH]; intros first got k Hk; cbn [poll_loop kd]; [exact I|].
-  intros [|hash txs h| | |]; try exact Hk.
+  intros [|hash txs h| | | |]; try exact Hk.
   - unfold poll_ok_p. destruct (got && Bootstrap.POLL_PERSISTS_BETTER_TIP); cbn; exact Hk.
   - apply kd_embedk; [apply cp_connect|]. intros _. apply IH. exact Hk.
 Qed.
@@ -648,7 +649,7 @@ Lemma fetch_step_chain c i first r c1 : fetch_step c i first = (r, c1) -> chain_
 Proof.
   unfold fetch_step, next_fetch, chain_view, delivered. rewrite stall_never_cancels. intros H.
   destruct (rc_fetch_or c) as [|a rest]; [|destruct a]; cbn in H;
-    try (destruct (rc_pending c) as [|[hash txs] pend] eqn:Ep);
+    try (destruct first); try (destruct (rc_pending c) as [|[hash txs] pend] eqn:Ep);
     inversion H; subst; cbn; rewrite ?Ep; cbn; rewrite <- ?app_assoc; reflexivity.
 Qed.
 
